@@ -212,12 +212,16 @@ class PreemptiveResource(PriorityResource):
             preempt = sorted(self.users, key=lambda e: e.key)[-1]
             if preempt.key > event.key:
                 self.users.remove(preempt)
-                preempt.proc.interrupt(  # type: ignore
-                    Preempted(
-                        by=event.proc,
-                        usage_since=preempt.usage_since,
-                        resource=self,
+                # A user whose process has already ended cannot be notified
+                # (interrupt() would raise and leave the freed slot unused);
+                # its slot is taken over all the same.
+                if preempt.proc.is_alive:  # type: ignore
+                    preempt.proc.interrupt(  # type: ignore
+                        Preempted(
+                            by=event.proc,
+                            usage_since=preempt.usage_since,
+                            resource=self,
+                        )
                     )
-                )
 
         return super()._do_put(event)
